@@ -1211,8 +1211,9 @@ class Scene(Geometry3D):
         """
         result = self.copy()
 
-        # a scale of 1.0 is a no-op
-        if np.allclose(scale, 1.0):
+        # a scale of exactly 1.0 is a no-op (a factor that is merely
+        # close to one, i.e. `1.000005`, is a scale like any other)
+        if np.all(np.asarray(scale, dtype=np.float64) == 1.0):
             return result
 
         # convert 2D geometries to 3D for 3D scaling factors
